@@ -39,6 +39,10 @@ class FuncInfo:
         a = self.node.args
         return [x.arg for x in a.posonlyargs + a.args]
 
+    def all_param_names(self):
+        a = self.node.args
+        return [x.arg for x in a.posonlyargs + a.args + a.kwonlyargs]
+
     def decorator_names(self):
         out = []
         for d in self.node.decorator_list:
@@ -355,6 +359,40 @@ class Index:
             else:
                 return None
         return obj
+
+    def command_runners(self):
+        """The functions through which the cluster backends run a scheduler command: the public module-level functions of gwf.backends.utils that take the
+        executable's name first and (through helpers of that module) start a process with subprocess.  {canonical dotted name: FuncInfo}.
+        On the pinned tree that is `call` alone; a sibling added next to it (a read-only `query` with a time limit, say) is a runner too."""
+        if hasattr(self, "_runners"):
+            return self._runners
+        mod = "gwf.backends.utils"
+        fs = {f.name: f for f in self.functions.values() if f.module.name == mod and f.cls is None and "." not in f.qual}
+        starts, calls = set(), {}
+        for name, f in fs.items():
+            calls[name] = set()
+            for n in walk_no_nested(f.node):
+                if isinstance(n, ast.Call) and isinstance(n.func, (ast.Name, ast.Attribute)):
+                    c = self.canon(n.func, f.module) or ""
+                    if c.startswith("subprocess."):
+                        starts.add(name)
+                    if c.startswith(mod + "."):
+                        calls[name].add(c[len(mod) + 1:])
+        changed = True
+        while changed:
+            changed = False
+            for name in fs:
+                if name not in starts and calls[name] & starts:
+                    starts.add(name)
+                    changed = True
+        self._runners = {f"{mod}.{name}": fs[name] for name in sorted(starts) if not name.startswith("_") and fs[name].positional_params()}
+        self._runner_helpers = {fs[name].key for name in starts}
+        return self._runners
+
+    def runner_functions(self):
+        """Keys of the runners and of the private helpers of their module through which they start the process."""
+        self.command_runners()
+        return self._runner_helpers
 
     def canon(self, node, module=None):
         """Canonical dotted name of a Name/Attribute chain as seen from its module (imports followed)."""
